@@ -372,14 +372,26 @@ func (r *Run) makeWitness() {
 
 // fallbackQuery re-decides conj ∧ extra with one-shot solver processes (different strategies: the
 // non-incremental z3 front end picks the bit-blasting tactic) when the incremental session said unknown.
-func (w *Worker) fallbackQuery(r *Run, conj []*Term, extra *Term) Res {
+func (w *Worker) fallbackQuery(r *Run, conj []*Term, extra *Term, vars []*Term) (Res, []uint64) {
 	t0 := time.Now()
 	defer func() { w.fbDur += time.Since(t0) }()
 	w.fallbacks++
 	script := w.standaloneScript(append(append([]*Term(nil), conj...), extra))
+	if len(vars) > 0 {
+		var sb strings.Builder
+		sb.WriteString("(get-value (")
+		for _, v := range vars {
+			if v != nil {
+				sb.WriteString(v.name + " ")
+			}
+		}
+		sb.WriteString("))\n")
+		script = "(set-option :produce-models true)\n" + script + sb.String()
+	}
 	type ans struct {
 		res Res
 		who string
+		out string
 	}
 	cmds := [][]string{
 		{"/usr/local/bin/z3-new", "-smt2", "-in", fmt.Sprintf("-T:%d", w.ex.cfg.FallbackTimeoutS)},
@@ -396,19 +408,43 @@ func (w *Worker) fallbackQuery(r *Run, conj []*Term, extra *Term) Res {
 			s := strings.TrimSpace(string(out))
 			switch {
 			case strings.HasPrefix(s, "unsat"):
-				ch <- ans{Unsat, who}
+				ch <- ans{Unsat, who, s}
 			case strings.HasPrefix(s, "sat"):
-				ch <- ans{Sat, who}
+				ch <- ans{Sat, who, s}
 			default:
-				ch <- ans{Unknown, who}
+				ch <- ans{Unknown, who, s}
 			}
 		}(cmd, c[0])
 	}
 	res := Unknown
+	var vals []uint64
 	for range cmds {
 		a := <-ch
 		if a.res != Unknown {
 			res = a.res
+			if res == Sat && len(vars) > 0 {
+				if i := strings.Index(a.out, "("); i >= 0 {
+					got := parseValues(a.out[i:])
+					// values come back for the non-nil variables in order
+					k := 0
+					vals = make([]uint64, len(vars))
+					okAll := true
+					for j, v := range vars {
+						if v == nil {
+							continue
+						}
+						if k < len(got) {
+							vals[j] = got[k]
+						} else {
+							okAll = false
+						}
+						k++
+					}
+					if !okAll {
+						vals = nil
+					}
+				}
+			}
 			break
 		}
 	}
@@ -417,7 +453,7 @@ func (w *Worker) fallbackQuery(r *Run, conj []*Term, extra *Term) Res {
 			p.Process.Kill()
 		}
 	}
-	return res
+	return res, vals
 }
 
 // standaloneScript renders a self-contained SMT-LIB script deciding the conjunction of ts.
